@@ -19,7 +19,7 @@ import casadi as ca
 import mpmath as mp
 import z3
 
-from ..harness import Harness, Claim, HarnessError
+from ..harness import Harness, Claim, HarnessError, StructureChanged
 from ..val import Val
 from .. import val as V
 from ..enc import Ctx
@@ -141,13 +141,13 @@ class TruthFixedPoint(Harness):
         if self.which == "accel":
             f = e["correct_accel"]
             if [f.name_in(i) for i in range(f.n_in())] != ["x", "W", "y_b", "g", "omega_b", "std_accel", "std_accel_omega", "beta_accel_c"]:
-                raise HarnessError("correct_accel signature changed")
+                raise StructureChanged("correct_accel signature changed")
             g = ca.SX.sym("g")
             o = f(x, W, y, g, ca.SX.zeros(3), 0.035, 0, 9.2)
             return ca.Function("tfa", [x, W, y, g], [o[3], o[5]])
         f = e["correct_mag"]
         if [f.name_in(i) for i in range(f.n_in())] != ["x", "W", "y_b", "decl", "std_mag", "beta_mag_c"]:
-            raise HarnessError("correct_mag signature changed")
+            raise StructureChanged("correct_mag signature changed")
         d = ca.SX.sym("d")
         o = f(x, W, y, d, 0.0025, 6.6)
         return ca.Function("tfm", [x, W, y, d], [o[3]])
@@ -209,7 +209,7 @@ class SensorMagCut(Harness):
             dep = {v.name() for v in ca.symvar(ca.SX(arg.param))}
             k = 0 if dep == {"mag_decl"} else (1 if dep == {"mag_incl"} else None)
             if k is None or k in rec:
-                raise HarnessError(f"measure_mag: unexpected SO3Dcm.exp call (argument depends on {sorted(dep)})")
+                raise StructureChanged(f"measure_mag: unexpected SO3Dcm.exp call (argument depends on {sorted(dep)})")
             rec[k] = ca.SX(arg.param)
             return g.SO3Dcm.from_Matrix(E[k])
         g.SO3DcmLieGroup.exp = exp
@@ -219,10 +219,10 @@ class SensorMagCut(Harness):
         finally:
             g.SO3DcmLieGroup.exp = o_exp
         if len(rec) != 2:
-            raise HarnessError(f"measure_mag: {len(rec)} SO3Dcm.exp calls (expected the declination and the inclination rotation)")
+            raise StructureChanged(f"measure_mag: {len(rec)} SO3Dcm.exp calls (expected the declination and the inclination rotation)")
         ins, outs, names = fc.last("measure_mag")
         if (names or [])[:4] != ["x", "mag_str", "mag_decl", "mag_incl"]:
-            raise HarnessError(f"measure_mag signature changed: {names}")
+            raise StructureChanged(f"measure_mag signature changed: {names}")
         x, s_, d, i = ins[:4]
         y = ca.substitute(outs[0], ca.vertcat(*ins[4:]), ca.SX.zeros(sum(v.numel() for v in ins[4:]), 1))  # noise off
         return ca.Function("mag_obs", [x, s_, d, i, ca.vec(E[0]), ca.vec(E[1])], [y, rec[0], rec[1]])
@@ -297,16 +297,16 @@ class RestoringDirection(Harness):
         finally:
             casadi.cross = o_cross
         if [f.name_in(i) for i in range(f.n_in())] != ["x", "W", "y_b", "g", "omega_b", "std_accel", "std_accel_omega", "beta_accel_c"]:
-            raise HarnessError("correct_accel signature changed")
+            raise StructureChanged("correct_accel signature changed")
         cand = [a for (a, b_) in rec if b_.is_constant() and [float(v) for v in ca.DM(b_).full().ravel()] == [0.0, 0.0, 1.0]]
         if len(cand) != 1:
-            raise HarnessError(f"correct_accel: expected one cross product with the vertical axis, found {len(cand)}")
+            raise StructureChanged(f"correct_accel: expected one cross product with the vertical axis, found {len(cand)}")
         yn = cand[0]
         sv = {v.name(): v for v in ca.symvar(yn)}
         try:
             y = ca.vertcat(*[sv[f"y_b_{i}"] for i in range(3)])
         except KeyError as e:
-            raise HarnessError(f"correct_accel: measurement symbol {e} not found in the rotated measurement")
+            raise StructureChanged(f"correct_accel: measurement symbol {e} not found in the rotated measurement")
         o = f(m.x, m.W, y, m.g, ca.SX.zeros(3), 0.035, 0, 9.2)
         return ca.Function("restoring", [m.x, y, m.g, m.W], [o[3], yn])
 
